@@ -29,6 +29,7 @@ type histCfg struct {
 	lines                []string // names of lines available to hands
 	decks                []string
 	between              []string // membership ops allowed between hands: arrive sitout rebuy leave-busted leave-live addon none
+	late                 []string // ops allowed between hands after the next hand has been set up (during the open-game wait)
 	mid                  []string // ops allowed at the first wager request: arrive addon-part rebuy-part leave-sitout leave-part none
 	finish               []string // settlement-finished policies available: all none first
 	newStack             int64
@@ -36,20 +37,23 @@ type histCfg struct {
 }
 
 type hist struct {
-	cfg           *histCfg
-	td            *TD
-	nextID        int
-	in, out       int64
-	topups        map[int]map[string]int64 // hand -> id -> chips credited while the hand was running
-	midDone       map[int]bool
-	midOp         map[int]string
-	events        []string
-	taint         string // set when the history did something after which a listed finding applies to every clause
-	externalPause bool
-	externalStop  bool
-	stopReason    string
-	curBlind      *pt.TableBlindState
-	onExternal    func(kind string)
+	cfg             *histCfg
+	td              *TD
+	nextID          int
+	in, out         int64
+	topups          map[int]map[string]int64 // hand -> id -> chips credited while the hand was running
+	midDone         map[int]bool
+	midOp           map[int]string
+	events          []string
+	taint           string // set when the history did something after which a listed finding applies to every clause
+	externalPause   bool
+	externalStop    bool
+	stopReason      string
+	curBlind        *pt.TableBlindState
+	onExternal      func(kind string)
+	inLate          bool
+	lateLeave       map[int]bool // hand after which a player left during the open-game wait
+	breakDuringWait bool         // a break was applied after the next hand had been set up (open-game wait)
 }
 
 var lineByName = map[string]Line{"foldout": lineFoldOut, "checkdown": lineCheckDown, "allin": lineAllIn, "explore": lineExplore}
@@ -167,6 +171,12 @@ func (h *hist) apply(op string) string {
 		bank := td.player(id).Bankroll
 		wasPart := td.player(id).IsParticipated && h.inHand()
 		if err := td.leave(id); err == nil {
+			if h.inLate {
+				if h.lateLeave == nil {
+					h.lateLeave = map[int]bool{}
+				}
+				h.lateLeave[t.State.GameCount] = true
+			}
 			h.out += bank
 			if wasPart {
 				h.taint = "after-participant-left-mid-hand"
@@ -191,6 +201,9 @@ func (h *hist) apply(op string) string {
 			}
 		case "blind-break":
 			b.Level = -1
+			if h.inLate {
+				h.breakDuringWait = true
+			}
 		case "blind-resume":
 			b = pt.TableBlindState{Level: 3, Ante: 0, Dealer: 0, SB: 1, BB: 2}
 		}
@@ -307,6 +320,19 @@ func runHist0(prefix []int, hc *histCfg, vcfg vrt.Config, mk func(h *hist) []Mon
 			}
 			pickHand(hand + 1)
 		}
+		cfg.late = func(td *TD, hand int) {
+			if hand >= hc.hands || len(hc.late) == 0 {
+				return
+			}
+			op := hc.late[env.ChooseDev(len(hc.late), "late")]
+			if op != "none" {
+				h.inLate = true
+				d := h.apply(op)
+				h.inLate = false
+				h.events = append(h.events, "late:"+d)
+				td.env.Settle()
+			}
+		}
 		cfg.atWager = func(td *TD, hand int, nth int) {
 			if nth != 0 || h.midDone[hand] {
 				return
@@ -318,7 +344,7 @@ func runHist0(prefix []int, hc *histCfg, vcfg vrt.Config, mk func(h *hist) []Mon
 				td.env.Settle()
 			}
 		}
-		r := &runner{td: td, hc: cfg, wagerN: map[int]int{}, betweenDone: map[int]bool{}}
+		r := &runner{td: td, hc: cfg, wagerN: map[int]int{}, betweenDone: map[int]bool{}, lateDone: map[int]bool{}}
 		r.taint = func() string { return h.taint }
 		r.mons = mk(h)
 		pickHand(1)
